@@ -422,7 +422,26 @@ def simplify(o):
         return O("ref", b)
     if k == "clone":
         return simplify(o[1])
-    if k == "field": return O("field", simplify(o[1]), o[2], o[3])
+    if k == "field":
+        b = simplify(o[1])
+        if b[0] == "agg" and b[1] == "tuple" and b[3] and str(o[3]).isdigit() and int(o[3]) < len(b[3]):
+            # projection of a tuple built in place (`match (a, b) { .. }`, assert_eq!): the component itself
+            return simplify(b[3][int(o[3])])
+        if b[0] == "downcast" and str(o[3]).isdigit():
+            # payload of variant V of a value that was built in place as V(..) on the paths that reach here with V
+            # (`let w = match x { MAX => None, id => Some(id) }; match w { Some(id) => .. }`): the component itself
+            src = b[1]; alts = src[2] if src[0] == "phi" else (src,)
+            picked = []
+            for a in alts:
+                a = simplify(a)
+                if a[0] == "agg" and a[2] is not None and a[1] != "tuple":
+                    if a[2] == b[2] and int(o[3]) < len(a[3]): picked.append(simplify(a[3][int(o[3])]))
+                    elif a[2] != b[2]: continue
+                    else: picked = None; break
+                else: picked = None; break
+            if picked:
+                return picked[0] if len(picked) == 1 else O("phi", src[1] if src[0] == "phi" else -1, tuple(picked))
+        return O("field", b, o[2], o[3])
     if k == "downcast": return O("downcast", simplify(o[1]), o[2])
     if k == "index": return O("index", simplify(o[1]), simplify(o[2]) if len(o) > 2 and o[2] is not None else None)
     if k == "cast":
@@ -553,6 +572,8 @@ def closure_args(f, t):
             o = o[1]
         if o[0] == "closure":
             out.append(o[1])
+        elif o[0] == "fnitem" and "{closure#fn:" in o[1]:
+            out.append(o[1])        # a named fn that replaced a closure (inline.normalise gave it a closure id)
         elif o[0] == "agg" and o[3]:
             # a closure wrapped in a newtype (AssertUnwindSafe(|| ..), Box::new is a call and not covered)
             for x in o[3]:
@@ -1206,6 +1227,10 @@ def _edge_atoms_of(prog, f, bb, label, o):
         if o[0] == "call":
             ct = f.term(o[1])
             atoms.append(Atom("call", name=o[2], site=o[1], recv=receiver_leaf(f, ct), truth=truth, origin=o))
+            # the negated twin of a two-valued query is the same fact: is_err() == !is_ok(), is_none() == !is_some()
+            for a1, b1 in (("Result::is_err", "Result::is_ok"), ("Result::is_ok", "Result::is_err"), ("Option::is_none", "Option::is_some"), ("Option::is_some", "Option::is_none")):
+                if (o[2] or "").endswith(a1):
+                    atoms.append(Atom("call", name=(o[2] or "")[:-len(a1)] + b1, site=o[1], recv=receiver_leaf(f, ct), truth=not truth, origin=o))
         elif o[0] == "bin" and o[1] in CMP_OPS:
             op = o[1] if truth else CMP_NEG[o[1]]
             ca, cb = simplify(o[2]), simplify(o[3])
